@@ -14,6 +14,38 @@ CHECKS = {
     ),
 }
 
+
+CHECKS.update({
+    "C17": dict(level="exploration", design="DESIGN.md section 4 C17",
+        text="Round-trip checks over generated entry runs: every run is written as one table and as size-bounded tables (WriteRun), then every key, neighbouring absent keys and several prefixes are read back by Get and ScanPrefix, again after reopening each table from its JSON-serialised descriptor and through a LevelList; split tables must have disjoint ascending ranges; bloom filters must accept every added key also after Encode/Decode. WAL: Put/Delete/Cut/Truncate/Rotate sequences, every sealed writer is saved and read back with every legal start marker. The oracle is the input itself, so exploration over many generated runs is the natural level.",
+        note="Trusts the in-memory FileSystem of the repository and the harness' reference (the sorted input run / the list of appended operations). Empty runs are outside the domain (no caller writes an empty table).",
+        technique="property-based testing: rapid generated runs, round-trip oracle (write -> read back / reopen from descriptor)"),
+    "C05": dict(level="exploration", design="DESIGN.md section 4 C05",
+        text="Differential check of the key space against an independent MurmurHash3_x86_32 and an arithmetic reference partition over generated (group count, operator count, key) triples, pinned by 23 published hash vectors; ranges are checked to be contiguous, covering and within one of each other in size. Part (b), through the real operator and source runner, is covered by the operator-level checks (C03/C06 compare persisted prefixes and routing).",
+        note="Trusts the harness reference hash, itself pinned by published vectors.",
+        technique="property-based testing: differential against an independent reference implementation + golden vectors"),
+    "C20": dict(level="exploration", design="DESIGN.md section 4 C20",
+        text="EventBatcher: model-based sequences of Add/IsFull/Flush(token)/timer expiry (including stale timers) against a list model. ReorderFetcher: real goroutines with generated fetch latencies and pauses injected through a verif hook between Flush and Reserve; the output must be the inputs in order. Interleavings are sampled, not enumerated.",
+        note="Schedules are explored by injected microsecond pauses; a failing schedule may need several replay attempts (replay retries 20 times).",
+        technique="property-based testing: rapid model-based sequences; schedule fuzzing with injected delays"),
+    "C18": dict(level="exploration", design="DESIGN.md section 4 C18",
+        text="Generated histories of level-0 flushes, single real Compactor.Compact steps (with flushes arriving between computing and applying the change set) and compaction to a fixed point, over generated compactor settings that populate middle and multi-table levels. After every step: levels >= 1 sorted and non-overlapping, per-key sequence numbers strictly decreasing in lookup order, Get of every key and five prefix scans equal a map model.",
+        note="Uses only the exported sst API, adding level-0 tables exactly as DB.rotateMemtable does. Tombstones may persist; only visibility and ordering are compared.",
+        technique="property-based testing: rapid generated histories vs map model + layout invariant after every step"),
+    "C07": dict(level="exploration", design="DESIGN.md section 4 C07",
+        text="Generated put/delete/get/scan histories on a real dkv.DB with tiny memtable/file sizes, with the table writes of flush and compaction tasks held and released by the program through a gating FileSystem and reads parked between their two snapshots (verif hook) while a flush swap completes. Every read is compared with a map model.",
+        note="The moments explored are those reachable by holding table writes and by the park point; other interleavings of the background goroutines are not enumerated.",
+        technique="property-based testing: rapid stateful histories vs map model with harness-owned background scheduling"),
+    "C08": dict(level="fault_enumeration", design="DESIGN.md section 4 C08",
+        text="The C07 history plus Checkpoint/Retain/holds of WAL and checkpoint-file saves. Every storage operation is journaled; for each retained handle the storage as of later operations is rebuilt and the handle is opened on it and compared (Get of every key + full scan) with the model copy taken at the Checkpoint call. The thorough tier enumerates every storage operation after the handle was returned (VERIF_CRASH_ALL=1); quick restores at the end plus up to three drawn points. Restored databases are written to, checkpointed and restored again up to depth 3. The histories are sampled, the crash points are enumerated: fault enumeration.",
+        note="Save/Delete/Copy are treated as atomic; a crash is modelled between storage operations. UpdateRetainedCheckpoints is issued only when no checkpoint save is pending.",
+        technique="property-based testing with crash-point enumeration over a journaled file system; snapshot oracle"),
+    "C09": dict(level="exploration", design="DESIGN.md section 4 C09",
+        text="DKV part: generated histories with checkpoints, retention updates, forced garbage collection and reopening on the same storage in the same process; after every step every file referenced by a retained checkpoint document must exist, every retained checkpoint must restore to its snapshot, WAL files of dropped checkpoints must be gone after the retention update, and the live database must answer every read. One genuine defect (previous database object deleting files after a same-process reopen) is an open known finding and is excluded by construction.",
+        note="GC timing is explored at forced collection points only. The neighbour part (NeedsTable errors after a rescale) is part of the operator-level check when built.",
+        technique="property-based testing: rapid stateful histories with forced GC, file-existence invariant over a journaled file system"),
+})
+
 PENDING_REASON = "check not built yet in this session; design in DESIGN.md section 4 (no other technique is substituted)"
 
 
@@ -45,7 +77,7 @@ def main():
         "hooks": {
             "guard": "verif",
             "enable": "go test -tags verif (build tag; util/verifhook/hook_on.go replaces the no-op hook_off.go)",
-            "baseline_off_cmd": "cd /repo && go test -mod=mod -vet=off -count=1 ./batching/... ./dkv/... ./storage/locations/... ./storage/objstore/... ./util/...",
+            "baseline_off_cmd": "cd /repo && go test -mod=mod -json -vet=off -count=1 -timeout 25m ./...",
             "source_commits": hook_commits,
             "add_only": True,
         },
